@@ -4,9 +4,11 @@ import (
 	"bytes"
 	"context"
 	"encoding/json"
+	"errors"
 	"fmt"
 	"io"
 	"net/http"
+	"strings"
 	"sync"
 	"sync/atomic"
 	"time"
@@ -708,6 +710,12 @@ func (a *Application) transformStreamAndWaitForProxy(
 	// would block in its next write for ever. Closing the read end fails that write instead.
 	if transformErr != nil {
 		pipeReader.CloseWithError(transformErr)
+	} else {
+		// The translator can also be done before the backend is: once it has seen [DONE] it
+		// finishes the message whatever follows, and it may have stopped reading (an over-long
+		// line after the marker). The read end is closed in every case, so that a proxy goroutine
+		// with more to relay gets an error instead of blocking in its next write for ever.
+		pipeReader.Close()
 	}
 
 	// Wait for proxy to complete
@@ -717,7 +725,10 @@ func (a *Application) transformStreamAndWaitForProxy(
 	if transformErr != nil {
 		return fmt.Errorf("stream transformation failed: %w", transformErr)
 	}
-	if proxyErr != nil {
+	if proxyErr != nil && !errors.Is(proxyErr, io.ErrClosedPipe) && !strings.Contains(proxyErr.Error(), io.ErrClosedPipe.Error()) {
+		// (a failed attempt reaches the translator as a read error, see startProxyGoroutine: a
+		// proxy error next to a completed translation can only concern what came after the end of
+		// the message, and writing to the pipe closed above is the expected one)
 		return fmt.Errorf("proxy request failed: %w", proxyErr)
 	}
 
